@@ -14,7 +14,8 @@ pub fn render(p: &TPath) -> String {
     for t in p {
         s.push('/');
         match t {
-            Tok::Key(k) => s.push_str(k),
+            // the JSON pointer (RFC 6901) of the node: '~' and '/' inside a member name are escaped
+            Tok::Key(k) => s.push_str(&k.replace('~', "~0").replace('/', "~1")),
             Tok::Idx(i) => s.push_str(&i.to_string()),
         }
     }
@@ -49,7 +50,7 @@ pub fn tpath_from_json(v: &Value) -> TPath {
 }
 
 /// member names of the valid stream: empty, numeric-looking, non-ASCII, near-reserved, sibling prefixes
-pub const KEYS: &[&str] = &["a", "b", "zz", "0", "1", "10", "", "A", "é", "_s", "x y", "ab", "a0", "sd", ".."];
+pub const KEYS: &[&str] = &["a", "b", "zz", "0", "1", "10", "", "A", "é", "_s", "x y", "ab", "a0", "sd", "..", "a/b", "m~n", "~1", "/"];
 
 fn scalar(r: &mut Rng) -> Value {
     match r.below(9) {
